@@ -23,14 +23,10 @@ def plans(tier):
 
 
 def run(tier):
-    return pc.run_check("C04", tier, ("C04",), plans(tier), clauses={"DispatchInWindow"},
-                        extra=fine_grained if True else None)
+    return pc.run_check("C04", tier, ("C04",), plans(tier), clauses={"DispatchInWindow"}, extra=fine_grained)
 
 
 def fine_grained(chk, sd, binp):
-    """schedules of an expiry check racing a fresh ejection / a probe result: Health.tla + gate replay"""
-    try:
-        import health_race
-    except ImportError:
-        return
-    health_race.run(chk, sd)
+    """schedules of an expiry check racing a fresh ejection / a probe result: HealthRace.tla + gate replay"""
+    import health_race
+    health_race.run(chk, sd, ["A", "B", "C"], {"C04"})
